@@ -458,19 +458,98 @@ func (a *advSim) schedStep() {
 	}
 }
 
-// flushHonest: timely delivery of everything pending among the correct operators, in send order, until quiescence
+// leaderHold: the continuation is free to choose the delivery order. The leader of a round takes the value to propose from
+// the round-change that COMPLETES its quorum (hasReceivedProposalJustificationForLeadingRound is evaluated once, on the quorum
+// edge, with `valueToPropose = signedRoundChange.FullData` of the triggering message). So the continuation holds the
+// round-changes addressed to the leader of its current round back until a quorum of them is available and then hands them
+// over with the highest-prepared one exactly on the quorum edge. Returns the pending indices to deliver now (in order) and
+// the ones held back.
+func (a *advSim) leaderHold(nd *SimNode, release bool) (now, held []int) {
+	p := a.pending[nd.id]
+	inst := nd.c.ctrl.StoredInstances.FindInstance(a.h)
+	if inst == nil || inst.State.Decided {
+		return p, nil
+	}
+	r := inst.State.Round
+	if a.f.leader(r) != nd.id {
+		return p, nil
+	}
+	have := map[spectypes.OperatorID]bool{}
+	for _, m := range inst.State.RoundChangeContainer.MessagesForRound(r) {
+		for _, s := range m.Signers {
+			have[s] = true
+		}
+	}
+	need := int(a.env.q) - len(have)
+	if need <= 0 {
+		return p, nil
+	}
+	var rcs, rest []int
+	seen := map[spectypes.OperatorID]bool{}
+	for _, idx := range p {
+		m := a.wire[idx].Msg
+		if m != nil && m.Message.MsgType == specqbft.RoundChangeMsgType && m.Message.Round == r && len(m.Signers) == 1 && !have[m.Signers[0]] && !seen[m.Signers[0]] {
+			seen[m.Signers[0]] = true
+			rcs = append(rcs, idx)
+		} else {
+			rest = append(rest, idx)
+		}
+	}
+	if len(rcs) == 0 {
+		return p, nil
+	}
+	if len(rcs) < need && !release {
+		return rest, rcs
+	}
+	best := 0
+	for i, idx := range rcs {
+		if a.wire[idx].Msg.Message.DataRound > a.wire[rcs[best]].Msg.Message.DataRound {
+			best = i
+		}
+	}
+	var others []int
+	for i, idx := range rcs {
+		if i != best {
+			others = append(others, idx)
+		}
+	}
+	k := need - 1
+	if k > len(others) {
+		k = len(others)
+	}
+	out := append([]int{}, others[:k]...)
+	out = append(out, rcs[best])
+	out = append(out, others[k:]...)
+	return append(out, rest...), nil
+}
+
+// flushHonest: timely delivery of everything pending among the correct operators until quiescence
 func (a *advSim) flushHonest(limit int) {
-	for cnt, progress := 0, true; progress && cnt < limit; {
-		progress = false
+	cnt := 0
+	release := false
+	for cnt < limit {
+		progress := false
 		for _, nd := range a.honest() {
-			for len(a.pending[nd.id]) > 0 && cnt < limit {
-				idx := a.pending[nd.id][0]
-				a.pending[nd.id] = a.pending[nd.id][1:]
+			for cnt < limit {
+				now, held := a.leaderHold(nd, release)
+				if len(now) == 0 {
+					break
+				}
+				idx := now[0]
+				a.pending[nd.id] = append(append([]int{}, now[1:]...), held...)
 				a.done[nd.id] = append(a.done[nd.id], idx)
 				a.deliverTo(nd, a.wire[idx].Enc)
 				cnt++
 				progress = true
 			}
+		}
+		if !progress {
+			if release {
+				return
+			}
+			release = true // nothing else can move: hand over what was held back
+		} else {
+			release = false
 		}
 	}
 }
@@ -518,7 +597,11 @@ func (a *advSim) continuation() (int, string) {
 	for step := 0; ; step++ {
 		a.flushHonest(20000)
 		if a.allDecided() {
-			return int(a.maxRound()) - int(start), ""
+			used := int(a.maxRound()) - int(start)
+			if used < 0 { // a decided message may have lowered the rounds
+				used = 0
+			}
+			return used, ""
 		}
 		if int(a.maxRound())-int(start) >= budget {
 			return -1, "budget"
@@ -600,7 +683,7 @@ func runSim(r *hx.Rng, withContinuation bool) []caseOut {
 			if why == "cutoff" {
 				tags = append(tags, "c07/cutoff-reached")
 			} else {
-				a.violate("C07/no-decision-within-f+3-rounds"+a.wedgeCause(), fmt.Sprintf("n=%d, %d silent Byzantine: the constructed timely continuation did not make all correct operators decide within f+3=%d rounds", env.n, nByz, f+3))
+				a.violate("C07/no-decision-within-f+3-rounds"+a.wedgeCause()+a.suffix(), fmt.Sprintf("n=%d, %d silent Byzantine: the constructed timely continuation did not make all correct operators decide within f+3=%d rounds", env.n, nByz, f+3))
 			}
 		} else {
 			tags = append(tags, fmt.Sprintf("c07/decided-after-%d-rounds", used))
@@ -616,16 +699,31 @@ func runSim(r *hx.Rng, withContinuation bool) []caseOut {
 	return a.outs(tags)
 }
 
-// wedgeCause: do the correct operators hold locks on different values (DESIGN §8-10)?
+// wedgeCause names the structural reason why the correct operators cannot decide any more:
+//   - correct-operators-locked-on-different-values (DESIGN §8-10): undecided correct operators hold locks on different values,
+//     so every round-change quorum among them contains prepared round-changes for two roots and no proposal is justifiable;
+//   - decided-operators-stop-participating: some correct operators are decided (through a certificate the others never
+//     received — a decided operator neither times out nor re-broadcasts the certificate it accepted) and the undecided correct
+//     operators alone are fewer than a quorum.
 func (a *advSim) wedgeCause() string {
 	vals := map[string]bool{}
+	undecided, decided := 0, 0
 	for _, nd := range a.honest() {
-		if inst := nd.c.ctrl.StoredInstances.FindInstance(a.h); inst != nil && !inst.State.Decided && inst.State.LastPreparedRound != 0 {
+		inst := nd.c.ctrl.StoredInstances.FindInstance(a.h)
+		if inst != nil && inst.State.Decided {
+			decided++
+			continue
+		}
+		undecided++
+		if inst != nil && inst.State.LastPreparedRound != 0 {
 			vals[string(inst.State.LastPreparedValue)] = true
 		}
 	}
 	if len(vals) > 1 {
 		return ":correct-operators-locked-on-different-values"
+	}
+	if decided > 0 && uint64(undecided) < a.env.q {
+		return ":decided-operators-stop-participating"
 	}
 	return ":other"
 }
